@@ -25,6 +25,9 @@ pub struct C15Case {
     pub oracle: OracleCfg,
     pub plan: ReplyPlan,
     pub vary_plan: bool,
+    /// also run the real ExternalSatSolver (exec_solver + a real fakesat process per solve call)
+    #[serde(default)]
+    pub process: bool,
 }
 
 pub struct C15;
@@ -125,7 +128,7 @@ impl Property for C15 {
             oracle.policy = Policy::Uniform;
         }
         let mut prng = Rng::sub(run_seed, "delivery");
-        serde_json::to_value(C15Case { ops, oracle, plan: ReplyPlan::draw(&mut prng), vary_plan: prng.bool() }).unwrap()
+        serde_json::to_value(C15Case { ops, oracle, plan: ReplyPlan::draw(&mut prng), vary_plan: prng.bool(), process: prng.chance(1, 200) }).unwrap()
     }
     fn exec(&self, case: &Value) -> RunResult {
         let case: C15Case = serde_json::from_value(case.clone()).expect("C15 case");
@@ -137,6 +140,13 @@ impl Property for C15 {
             ("ExternalSatSolver(BufferedSatSolver over SimChild)", factory_for(backend, &hub, &chub)()),
             ("SimSat", simsat::factory(&hub)()),
         ];
+        if case.process {
+            solvers.push((
+                "ExternalSatSolver(real process)",
+                factory_for(Backend::Process { seed: case.oracle.seed % 1000, comment_bytes: (case.oracle.seed % 3 * 40_000) as usize }, &hub, &chub)(),
+            ));
+            r.count("histories_with_real_external_process", 1);
+        }
         let mut clauses: Vec<Vec<i32>> = vec![];
         let mut declared = 0usize;
         let mut n_solve = 0u64;
@@ -281,6 +291,9 @@ impl Property for C15 {
                     out.push(C15Case { ops, ..case.clone() });
                 }
             }
+        }
+        if case.process {
+            out.push(C15Case { process: false, ..case.clone() });
         }
         if case.plan != ReplyPlan::plain() || case.vary_plan {
             out.push(C15Case { plan: ReplyPlan::plain(), vary_plan: false, ..case.clone() });
